@@ -1,11 +1,14 @@
-(* C09 - Versioned references resolve to exactly the named definition or fail cleanly. Statements only. *)
+(* C09 - Versioned references resolve to exactly the named definition or fail cleanly. Statements only.
+   Model: Namespace/Reader.v (resolve, read = reading one definition without cache, readS = with the per-object
+   cache / visitor / handler).  Proofs: Namespace/ReaderProofs.v, ReadPure.v, ReadCache.v. *)
 From Coq Require Import ZArith List Bool.
-From PV Require Import Namespace.Reader Namespace.ReaderProofs.
+From PV Require Import Namespace.Reader Namespace.ReaderProofs Namespace.ReadPure Namespace.ReadCache.
 Import ListNotations.
 Open Scope Z_scope.
 
 (* A reference is resolved to d exactly when d is the ONLY lookup whose lower-cased full name equals the lower-cased
-   completed reference and whose version is the requested one, and d's name is spelled exactly like the reference *)
+   completed reference (a name without dots is relative to the referrer's namespace) and whose version is the
+   requested one, and d's name is spelled exactly like the reference *)
 Theorem C09_resolve_exact : forall me n a b L d,
   resolve me n a b L = RFound d <->
   filter (cand (complete me n) a b) L = [d] /\ mname d = complete me n.
@@ -19,3 +22,96 @@ Theorem C09_resolve_never_other : forall me n a b L d,
   forall e, In e L -> lower (mname e) = lower (complete me n) -> mmaj e = a -> mmin e = b -> e = d.
 Proof. exact resolve_found_props. Qed.
 Print Assumptions C09_resolve_never_other.
+
+(* missing => Undefined; two or more candidates => a collision error; one candidate in another letter case => error *)
+Theorem C09_errors : forall me n a b L,
+  (resolve me n a b L = RUndefined <-> forall e, In e L -> cand (complete me n) a b e = false) /\
+  (forall x y r, filter (cand (complete me n) a b) L = x :: y :: r ->
+     resolve me n a b L = RCollision \/ resolve me n a b L = RCaseCollision) /\
+  (forall d, filter (cand (complete me n) a b) L = [d] -> mname d <> complete me n -> resolve me n a b L = RCaseCollision).
+Proof.
+  intros. split; [apply resolve_undefined_iff|]. split; [apply resolve_many|apply resolve_single_wrong_case].
+Qed.
+Print Assumptions C09_errors.
+
+(* fuel = length of the lookup list + 1 always suffices: the list shrinks with every level of recursion (this is
+   what stops self references and cycles), without and with the cache *)
+Theorem C09_terminates : forall txt d L tk c,
+  read_top txt d L <> Err EFuel /\ readS txt (S (length L)) tk d L c <> Err EFuel.
+Proof. intros. split; [apply read_top_terminates|apply readS_top_terminates]. Qed.
+Print Assumptions C09_terminates.
+
+(* a definition that reaches its own name and version through exactly spelled references (self reference included)
+   is reported as invalid from every entry point of the cycle, whatever else the lookup list contains *)
+Theorem C09_cycles : forall txt L d e,
+  reaches txt L d e -> mkey e = mkey d ->
+  (forall f K t, read txt f d (fk K L) <> Ok t) /\ exists err, read_top txt d L = Err err /\ err <> EFuel.
+Proof. intros. split; [eapply read_cycle; eassumption|eapply read_top_cycle; eassumption]. Qed.
+Print Assumptions C09_cycles.
+
+(* the nested type of every field, at any depth, is what reading that definition on its own yields *)
+Theorem C09_standalone : forall txt L, case_unique L -> forall d t, read_top txt d L = Ok t ->
+  forall t', sdesc t' t -> exists d', In d' L /\ tkey t' = mkey d' /\ tfile t' = mfile d' /\ read_top txt d' L = Ok t'.
+Proof. exact read_standalone. Qed.
+Print Assumptions C09_standalone.
+
+(* along every path of a returned tree all (name, version) pairs differ *)
+Theorem C09_acyclic : forall txt L d t t', read_top txt d L = Ok t -> sdesc t' t -> tkey t' <> mkey d.
+Proof.
+  intros txt L d t t' H Hd. unfold read_top in H. rewrite <- (fk_all L) in H.
+  exact (proj2 (read_desc_key txt L t' t Hd _ _ _ H)).
+Qed.
+Print Assumptions C09_acyclic.
+
+(* any sequence of top-level reads - target objects or lookup objects, any order, repetitions - threading the
+   per-object cache returns, up to the first failure, exactly what reading each definition on its own returns,
+   and fails exactly where that fails *)
+Theorem C09_cache_order : forall txt L, case_unique L -> files_unique L -> forall os,
+  (forall o, In o os -> In (snd o) L) ->
+  read_seq txt L [] os = pure_seq txt L (map snd os).
+Proof. intros. apply read_seq_pure; try assumption. apply cinv_nil. Qed.
+Print Assumptions C09_cache_order.
+
+(* Without case_unique the statement of C09_standalone is false (open finding F7): ns.A.1.0 has a field X.1.0,
+   ns.X.1.0 has a field ns.a.1.0, and ns.a.1.0 exists next to ns.A.1.0.  Reading A succeeds (A itself is not a
+   candidate while X is resolved below it), but X read on its own is ambiguous. *)
+Definition f7_ns : str := [110; 115].
+Definition f7_A := mkMeta f7_ns [65] 1 0 None 0.
+Definition f7_a := mkMeta f7_ns [97] 1 0 None 1.
+Definition f7_X := mkMeta f7_ns [88] 1 0 None 2.
+Definition f7_L := [f7_A; f7_X; f7_a].
+Definition f7_txt (f : Z) : list item :=
+  if f =? 0 then [Ref [88] 1 0 0] else if f =? 2 then [Ref [110; 115; 46; 97] 1 0 0] else [Plain 8].
+
+Theorem C09_standalone_refuted : exists txt L d t t',
+  read_top txt d L = Ok t /\ sdesc t' t /\
+  ~ exists d', In d' L /\ tkey t' = mkey d' /\ read_top txt d' L = Ok t'.
+Proof.
+  exists f7_txt, f7_L, f7_A.
+  exists (Node 0 (mname f7_A) 1 0 8 [Node 2 (mname f7_X) 1 0 8 [Node 1 (mname f7_a) 1 0 8 []]]).
+  exists (Node 2 (mname f7_X) 1 0 8 [Node 1 (mname f7_a) 1 0 8 []]).
+  split; [vm_compute; reflexivity|]. split; [apply sd_kid; left; reflexivity|].
+  intros [d' [Hin [Hk Hr]]]. simpl in Hin. destruct Hin as [E|[E|[E|[]]]]; subst d'; vm_compute in Hr; discriminate.
+Qed.
+Print Assumptions C09_standalone_refuted.
+
+(* non-vacuity: a diamond with two versions and a relative reference satisfies the hypotheses; the model computes *)
+Definition ex_ns : str := [110; 115].
+Definition ex_A := mkMeta ex_ns [65] 1 0 None 0.
+Definition ex_B := mkMeta ex_ns [66] 1 0 None 1.
+Definition ex_C := mkMeta ex_ns [67] 1 0 None 2.
+Definition ex_D := mkMeta ex_ns [68] 1 0 None 3.
+Definition ex_D2 := mkMeta ex_ns [68] 1 1 None 4.
+Definition ex_L := [ex_A; ex_B; ex_C; ex_D2; ex_D].
+Definition ex_txt (f : Z) : list item :=
+  if f =? 0 then [Ref [66] 1 0 0; Ref [110; 115; 46; 67] 1 0 2]
+  else if f =? 1 then [Ref [68] 1 0 0] else if f =? 2 then [Ref [68] 1 0 0; Print] else [Plain 16].
+Example C09_nonvacuous :
+  case_unique ex_L /\ files_unique ex_L /\
+  read_top ex_txt ex_A ex_L =
+    Ok (Node 0 (mname ex_A) 1 0 48 [Node 1 (mname ex_B) 1 0 16 [Node 3 (mname ex_D) 1 0 16 []];
+                                     Node 2 (mname ex_C) 1 0 16 [Node 3 (mname ex_D) 1 0 16 []]]).
+Proof.
+  split; [apply case_uniqueb_ok; vm_compute; reflexivity|]. split; [|vm_compute; reflexivity].
+  unfold files_unique. simpl. repeat constructor; simpl; intuition discriminate.
+Qed.
